@@ -234,11 +234,17 @@ def steps_live_before(h, st):
 
 def one(ctx, handler, pools, names, ops, cases, impls, drain=True):
     h = PoolHistory(handler, pools, names=names)
+    raised = None
     for op in ops:
-        h.do(op)
-    if drain:
+        st = h.do(op)
+        if st is not None and st['op'].split()[0] in ('remove', 'add') and st['err'] != '-':
+            raised = (st['op'], st['err'])        # the history ends here: the state of the pool is anybody's guess
+            break
+    if drain and raised is None:
         h.drain()
-    viol = monitor(h, drain)
+    viol = monitor(h, drain and raised is None)
+    if raised:
+        viol.append(('group-call-raised', '%r let %s escape' % raised))
     cases.append((h.case_line(), h.ops))
     impls.append(h.lines)
     n = sum(len(st['sent']) for st in h.steps)
